@@ -162,7 +162,9 @@ func c20WordCase(r *rand.Rand, w string, valid bool) string {
 }
 
 func c20Ident(r *rand.Rand) string {
-	alpha := []string{"a", "b", "user", "id", "X", "A", "URL", "Http", "_", "__", "1", "42", "é", "ü", "中", "ж", "order", "Z9"}
+	alpha := []string{"a", "b", "user", "id", "X", "A", "URL", "Http", "_", "__", "1", "42", "é", "ü", "中", "ж", "order", "Z9",
+		// upper-case letters outside ASCII: they do not start a word (only A-Z do) but take the word's casing
+		"É", "Ü", "Ж", "Σ", "Àb", "oÉ"}
 	n := r.Intn(6)
 	s := ""
 	for i := 0; i < n; i++ {
